@@ -3,6 +3,7 @@ package main
 import (
 	"fmt"
 	"math"
+	"strings"
 	"time"
 
 	tally "github.com/uber-go/tally/v4"
@@ -223,8 +224,12 @@ func c20Jobs(tier string) []*SeqJob {
 	depth := tierInt(tier, 3, 4)
 	builtin := []time.Duration{0, 10 * time.Millisecond, 25 * time.Millisecond, 50 * time.Millisecond, 75 * time.Millisecond, 100 * time.Millisecond, 200 * time.Millisecond,
 		300 * time.Millisecond, 400 * time.Millisecond, 500 * time.Millisecond, 600 * time.Millisecond, 800 * time.Millisecond, time.Second, 2 * time.Second, 5 * time.Second}
+	// ScopeOptions.DefaultBuckets: unset (the built-in duration defaults), value bounds in no particular order, duration
+	// bounds. A histogram asked for with nil buckets - on the root or on a derived scope - gets exactly those.
+	defaultSets := []tally.Buckets{nil, tally.ValueBuckets{3, 1, 2}, tally.DurationBuckets{5, 1}}
+	defi := 0
 	run := func(path histPath, seq []int) (string, string, int) {
-		e := newHistEnv(path, nil)
+		e := newHistEnv(path, copyBucketsArg(defaultSets[defi]))
 		root := e.root
 		sub := root.SubScope("s")
 		total := 0
@@ -246,6 +251,10 @@ func c20Jobs(tier string) []*SeqJob {
 			scope := e.root
 			_ = scope
 			switch {
+			case sp.nil_ && defi == 1:
+				cl, det, st = checkValueHistogramOn(&env, e.root, name, nil, []float64{3, 1, 2})
+			case sp.nil_ && defi == 2:
+				cl, det, st = checkDurationHistogramOn(&env, e.root, name, nil, []time.Duration{5, 1})
 			case sp.nil_:
 				cl, det, st = checkDurationHistogramOn(&env, e.root, name, nil, builtin)
 			case sp.dur:
@@ -290,22 +299,33 @@ func c20Jobs(tier string) []*SeqJob {
 				if len(seq) == depth && path == pathPlain && depth >= 3 {
 					continue
 				}
-				sq := append([]int{}, seq...)
-				steps := 0
-				cl, det := guard(func() (string, string) { a, b, s := run(path, sq); steps = s; return a, b })
-				ops := []string{path.String()}
-				for _, k := range sq {
-					ops = append(ops, specs[k].name)
+				hasNil := false
+				for _, k := range seq {
+					hasNil = hasNil || specs[k].nil_
 				}
-				ctx.Case(steps, len(sq) > 1, func() string { return fmt.Sprint(ops) })
-				ctx.State(fmt.Sprint(ops))
-				if cl != "" {
-					// the clause must not depend on the position in the sequence
-					ctx.Fail(cl[len("histogram-0-of-sequence: "):], det, ops)
-					if ctx.viol != nil {
-						return false
+				for defi = 0; defi < len(defaultSets); defi++ {
+					if defi > 0 && !hasNil {
+						break // configured defaults only matter to histograms that ask for them
+					}
+					sq := append([]int{}, seq...)
+					steps := 0
+					cl, det := guard(func() (string, string) { a, b, s := run(path, sq); steps = s; return a, b })
+					ops := []string{fmt.Sprintf("%s defaults=%d", path.String(), defi)}
+					for _, k := range sq {
+						ops = append(ops, specs[k].name)
+					}
+					ctx.Case(steps, len(sq) > 1, func() string { return fmt.Sprint(ops) })
+					ctx.State(fmt.Sprint(ops))
+					if cl != "" {
+						// the clause must not depend on the position in the sequence
+						ctx.Fail(c20StripPos(cl), det, ops)
+						if ctx.viol != nil {
+							defi = 0
+							return false
+						}
 					}
 				}
+				defi = 0
 			}
 			return true
 		})
@@ -315,7 +335,11 @@ func c20Jobs(tier string) []*SeqJob {
 	}
 	j.Replay = func(ops []string) (string, string) {
 		path := pathPlain
-		if ops[0] == "cached" {
+		var ps string
+		defi = 0
+		fmt.Sscanf(ops[0], "%s defaults=%d", &ps, &defi)
+		defer func() { defi = 0 }()
+		if ps == "cached" {
 			path = pathCached
 		}
 		var seq []int
@@ -327,10 +351,7 @@ func c20Jobs(tier string) []*SeqJob {
 			}
 		}
 		cl, det := guard(func() (string, string) { a, b, _ := run(path, seq); return a, b })
-		if cl != "" {
-			cl = cl[len("histogram-0-of-sequence: "):]
-		}
-		return cl, det
+		return c20StripPos(cl), det
 	}
 	return []*SeqJob{c20ConstructorJob(), j}
 }
@@ -407,4 +428,23 @@ func c20Scenarios(tier string) []*Scenario {
 		}
 	}
 	return out
+}
+
+// copyBucketsArg returns a fresh copy of a bucket set for one execution (nil stays nil).
+func copyBucketsArg(b tally.Buckets) tally.Buckets {
+	switch v := b.(type) {
+	case tally.ValueBuckets:
+		return append(tally.ValueBuckets{}, v...)
+	case tally.DurationBuckets:
+		return append(tally.DurationBuckets{}, v...)
+	}
+	return nil
+}
+
+// c20StripPos removes the "histogram-<i>-of-sequence: " prefix of a clause (a panic has none).
+func c20StripPos(cl string) string {
+	if strings.HasPrefix(cl, "histogram-") && len(cl) > len("histogram-0-of-sequence: ") {
+		return cl[len("histogram-0-of-sequence: "):]
+	}
+	return cl
 }
